@@ -167,4 +167,75 @@ def zitReplace (l1 l2 : List Nat) (c : Cursor) (x1 x2 : Nat) : Stat × Option (N
   | none => (.errValueNotFound, none, l1, l2)
   | some k => (.ok, some (l1.getD k 0, l2.getD k 0), l1.set k x1, l2.set k x2)
 
+/-! ## histories over a destination list and a source list (property C04)
+
+The state is the pair (destination, source); `swapRoles` exchanges the roles, so every operation
+can be applied to either list and the bulk operations can go in both directions. -/
+inductive Op where
+  | addFirst (x : Nat) | addLast (x : Nat) | addAt (x i : Nat)
+  | addAll | addAllAt (i : Nat) | splice | spliceAt (i : Nat)
+  | remove (x : Nat) | removeAt (i : Nat) | removeFirst | removeLast | removeAll
+  | replaceAt (x i : Nat) | reverse | filterMut
+  | getFirst | getLast | getAt (i : Nat) | indexOf (x : Nat) | contains (x : Nat) | containsValue (x : Nat)
+  | size | toArray | foreach
+  | swapRoles
+  deriving Repr, DecidableEq
+
+/-- what a call reports: status (`none` for `void`/`size_t` functions), out-value, out-sequence
+(array, callback log) -/
+structure Out where
+  st   : Option Stat := none
+  val  : Option Nat := none
+  vals : List Nat := []
+  deriving Repr, DecidableEq
+
+/-- user callbacks of a history -/
+structure Params where
+  pred : Nat → Bool
+  cmp  : Nat → Nat → Int
+
+/-- one step of the ideal pair of lists; `dbl`: the doubly linked list's documented ranges and
+statuses (`true`) or the singly linked list's (`false`) -/
+def step (dbl : Bool) (P : Params) (s : List Nat × List Nat) : Op → Out × (List Nat × List Nat)
+  | .addFirst x => ({ st := some .ok }, (addFirst s.1 x, s.2))
+  | .addLast x => ({ st := some .ok }, (addLast s.1 x, s.2))
+  | .addAt x i => let r := addAt s.1 x i; ({ st := some r.1 }, (r.2, s.2))
+  | .addAll => let r := addAll s.1 s.2; ({ st := some r.1 }, (r.2.1, r.2.2))
+  | .addAllAt i => let r := addAllAt dbl s.1 s.2 i; ({ st := some r.1 }, (r.2.1, r.2.2))
+  | .splice => let r := splice s.1 s.2; ({ st := some r.1 }, (r.2.1, r.2.2))
+  | .spliceAt i => let r := spliceAt dbl s.1 s.2 i; ({ st := some r.1 }, (r.2.1, r.2.2))
+  | .remove x => let r := remove s.1 x; ({ st := some r.1, val := r.2.1 }, (r.2.2, s.2))
+  | .removeAt i => let r := removeAt s.1 i; ({ st := some r.1, val := r.2.1 }, (r.2.2, s.2))
+  | .removeFirst => let r := removeFirst s.1; ({ st := some r.1, val := r.2.1 }, (r.2.2, s.2))
+  | .removeLast => let r := removeLast s.1; ({ st := some r.1, val := r.2.1 }, (r.2.2, s.2))
+  | .removeAll => let r := removeAll s.1; ({ st := some r.1, vals := r.2.1 }, (r.2.2, s.2))
+  | .replaceAt x i => let r := replaceAt s.1 x i; ({ st := some r.1, val := r.2.1 }, (r.2.2, s.2))
+  | .reverse => ({}, (s.1.reverse, s.2))
+  | .filterMut => let r := filterMut P.pred s.1; ({ st := some r.1 }, (r.2, s.2))
+  | .getFirst => let r := getFirst s.1; ({ st := some r.1, val := r.2 }, s)
+  | .getLast => let r := getLast s.1; ({ st := some r.1, val := r.2 }, s)
+  | .getAt i => let r := getAt s.1 i; ({ st := some r.1, val := r.2 }, s)
+  | .indexOf x => let r := indexOf (if dbl then P.cmp else cmpNum) s.1 x; ({ st := some r.1, val := r.2 }, s)
+  | .contains x => ({ val := some (contains s.1 x) }, s)
+  | .containsValue x => ({ val := some (containsValue P.cmp s.1 x) }, s)
+  | .size => ({ val := some s.1.length }, s)
+  | .toArray => let r := toArray (!dbl) s.1; ({ st := some r.1, vals := r.2.getD [] }, s)
+  | .foreach => ({ vals := s.1 }, s)
+  | .swapRoles => ({}, (s.2, s.1))
+
+def run (dbl : Bool) (P : Params) (s : List Nat × List Nat) : List Op → List Out × (List Nat × List Nat)
+  | [] => ([], s)
+  | op :: ops => let r := step dbl P s op; let rs := run dbl P r.2 ops; (r.1 :: rs.1, rs.2)
+
+/-- the ideal run in which the operations the allocator refused (status `CC_ERR_ALLOC` in `sts`)
+did not happen -/
+def runSkipping (dbl : Bool) (P : Params) (s : List Nat × List Nat) :
+    List Op → List (Option Stat) → List Out × (List Nat × List Nat)
+  | op :: ops, st :: sts =>
+    if st = some .errAlloc then
+      let rs := runSkipping dbl P s ops sts; ({ st := some .errAlloc } :: rs.1, rs.2)
+    else
+      let r := step dbl P s op; let rs := runSkipping dbl P r.2 ops sts; (r.1 :: rs.1, rs.2)
+  | _, _ => ([], s)
+
 end CC.Spec.LSeq
